@@ -2468,6 +2468,10 @@ class Exec:
             return EXTERNALS[full](self, st, args, kwargs, e)
         if full == "numpy.zeros" and isinstance(args[0], tuple) and len(args[0]) == 2:
             r, c = args[0]
+            for k in e.keywords:
+                # an element type other than double changes what a later element store keeps (rounding / truncation)
+                if not (k.arg == "dtype" and ast.unparse(k.value) in ("float", "np.float64", "numpy.float64", "'float64'")):
+                    raise Unsupported("np.zeros with %s=%s" % (k.arg, ast.unparse(k.value)))
             row0 = z3.K(INT, z3.RealVal(0))
             return SMat(z3.K(INT, row0), r, c)
         if full == "numpy.zeros":
